@@ -86,6 +86,7 @@ fn main() {
         "C10" => c10,
         "C11" => c11,
         "C12" => c12,
+        "C13" => c13,
         "C15" => c15,
         "C16" => c16,
         "C19" => c19,
